@@ -3,7 +3,7 @@
     reads the conventional document of a conformant value back as that value. *)
 From Coq Require Import ZArith List Bool Lia Arith ZifyBool.
 From SpyneV Require Import Base.Prelude Base.Digits Base.Ext Wire.Utf8 Wire.Decimal Wire.Dict.
-From SpyneV Require Import C02.Spec C02.Utf8Proofs C02.Lists C02.EncProofs.
+From SpyneV Require Import Gen.DictDoc C02.GenProofs C02.Spec C02.Utf8Proofs C02.Lists C02.EncProofs.
 Import ListNotations.
 Open Scope Z_scope.
 
@@ -102,7 +102,7 @@ Section Dec.
       length suf = length fsuf ->
       (forall f x, In (f, x) (combine suf fsuf) -> keep f x = true -> mdec_ok rec f x) ->
       (forall f x, In (f, x) (combine suf fsuf) -> keep f x = false -> x = DNone) ->
-      fold_items c U rec ffs0
+      fold_items c rec ffs0
                  (ipre ++ repeat DNone (length suf), qpre ++ repeat 0 (length suf))
                  (gitems keyf keep suf fsuf)
       = Ok (ipre ++ map vnorm fsuf, qpre ++ cnts keep suf fsuf).
@@ -115,7 +115,7 @@ Section Dec.
       { rewrite E, map_app in Hnd. cbn [map] in Hnd. eapply NoDup_app_head, Hnd. }
       (* the induction hypothesis, for the state after this member *)
       assert (IH' : forall v q,
-                 fold_items c U rec ffs0
+                 fold_items c rec ffs0
                             ((ipre ++ [v]) ++ repeat DNone (length suf), (qpre ++ [q]) ++ repeat 0 (length suf))
                             (gitems keyf keep suf fsuf)
                  = Ok ((ipre ++ [v]) ++ map vnorm fsuf, (qpre ++ [q]) ++ cnts keep suf fsuf)).
@@ -139,10 +139,10 @@ Section Dec.
           unfold add_nth. rewrite Li, <- Lq, nth_app_len, set_nth_app. rewrite map_length.
           rewrite Z.add_0_l.
           specialize (IH' (DList (map vnorm xs)) (Z.of_nat (length xs))).
-          rewrite <- !app_assoc in IH'. cbn [app] in IH'. rewrite IH'. rewrite vnorm_list. reflexivity.
+          rewrite <- !app_assoc in IH'. cbn [app] in IH'. rewrite <- E. rewrite IH'. rewrite vnorm_list. reflexivity.
         * rewrite Hrec. cbn [bind]. rewrite set_nth_app.
           unfold add_nth. rewrite Li, <- Lq, nth_app_len, set_nth_app. rewrite Z.add_0_l.
-          specialize (IH' (vnorm x) 1). rewrite <- !app_assoc in IH'. cbn [app] in IH'. exact IH'.
+          specialize (IH' (vnorm x) 1). rewrite <- !app_assoc in IH'. cbn [app] in IH'. rewrite <- E. exact IH'.
       + (* the member was left out: it is None *)
         rewrite (Hskip f x (or_introl eq_refl) Hkeep). cbn [repeat length vnorm].
         specialize (IH' DNone 0). rewrite <- !app_assoc in IH'. cbn [app] in IH'. exact IH'.
@@ -155,7 +155,7 @@ Section Dec.
     (forall f, member_conf c U poly f DNone = true -> dmulti f = true -> keep f DNone = false) ->
     freq_ok ffs (cnts keep ffs fs) = true.
   Proof.
-    intros fs Hfo Hm K1 K2. unfold freq_ok.
+    intros fs Hfo Hm K1 K2. unfold freq_ok, freq_low, freq_high.
     revert fs Hm. induction ffs as [|f r IH]; intros [|x s] Hm; cbn [mconf] in Hm; try discriminate;
       [reflexivity|].
     cbn [forallb] in Hfo. apply andb_true_iff in Hfo as [Hf Hfo].
@@ -169,18 +169,18 @@ Section Dec.
         destruct (match df_max f with Some m => 1 <? m | None => true end) eqn:Hmul.
         * specialize (K2 f Hmx). unfold dmulti in K2. rewrite Hmul in K2. specialize (K2 eq_refl). congruence.
         * destruct (df_ty f), (df_max f) as [m|]; try discriminate;
-            repeat match goal with |- context [match ?z with _ => _ end] => destruct z end; lia.
+            repeat (cbv beta iota zeta; match goal with |- context [match ?z with _ => _ end] => is_var z; destruct z end); cbv beta iota zeta delta [ext_ltb]; lia.
       + rewrite (member_conf_some c U poly _ _ Hx) in Hmx. apply andb_true_iff in Hmx as [Ho _].
         unfold occurs_ok, dmulti in Ho.
         destruct (match df_max f with Some m => 1 <? m | None => true end) eqn:Hmul.
         * destruct x; try discriminate.
           destruct (df_ty f), (df_max f) as [m|]; try discriminate;
-            repeat match goal with |- context [match ?z with _ => _ end] => destruct z end; lia.
+            repeat (cbv beta iota zeta; match goal with |- context [match ?z with _ => _ end] => is_var z; destruct z end); cbv beta iota zeta delta [ext_ltb]; lia.
         * destruct (df_ty f), (df_max f) as [m|]; try discriminate;
-            repeat match goal with |- context [match ?z with _ => _ end] => destruct z end; lia.
+            repeat (cbv beta iota zeta; match goal with |- context [match ?z with _ => _ end] => is_var z; destruct z end); cbv beta iota zeta delta [ext_ltb]; lia.
     - destruct (K1 f x Hkeep) as [-> Hmin].
       destruct (df_ty f), (df_max f) as [m|]; try discriminate;
-        repeat match goal with |- context [match ?z with _ => _ end] => destruct z end; lia.
+        repeat (cbv beta iota zeta; match goal with |- context [match ?z with _ => _ end] => is_var z; destruct z end); cbv beta iota zeta delta [ext_ltb]; lia.
   Qed.
 
   (** ** class names *)
@@ -224,11 +224,11 @@ Section Dec.
 
   (** ** unfolding the readers on a non-null document *)
   Notation rdr k := (d2o_gen c U ldec k).
-  Notation fdr k := (fdv_with c U ldec (d2o_gen c U ldec k)).
+  Notation fdr k := (fdv_with c ldec (d2o_gen c U ldec k)).
 
   Lemma fdv_nonnull rec nillable t j :
     (forall k, t <> DPrim k) -> jv_is_null j = false ->
-    fdv_with c U ldec rec nillable t j
+    fdv_with c ldec rec nillable t j
     = (do r <- rec t j; if c_soft c && negb nillable && is_none r then VFault else Ok r).
   Proof.
     intros Ht Hj. destruct t as [k| |]; [exfalso; eapply Ht; reflexivity| |];
@@ -261,7 +261,7 @@ Section Dec.
                                    | None => VFault
                                    end
                             end);
-               do st0 <- fold_items c U (fdr k) ffs
+               do st0 <- fold_items c (fdr k) ffs
                            (repeat DNone (length ffs), repeat 0 (length ffs)) items;
                if c_soft c && negb (freq_ok ffs (snd st0)) then VFault
                else Ok (DObj d' (fst st0))
@@ -288,15 +288,17 @@ Section Dec.
     (forall m, (m < n)%nat -> Dn m) -> (vdepth x < n)%nat -> (n <= S k)%nat ->
     member_conf c U poly f x = true ->
     (x = DNone -> dmulti f = false /\ (c_list c = true \/ 0 < df_min f)) ->
-    mdec_ok c U st (fdr k) f x.
+    mdec_ok (fdr k) f x.
   Proof.
     intros IH Hd Hk Hm Hnone. unfold mdec_ok. destruct (is_none x) eqn:Hx.
     - apply is_none_true in Hx. subst x. destruct (Hnone eq_refl) as [Hmul Hw]. rewrite Hmul.
       pose proof (none_allowed f Hm Hmul Hw) as Hal. cbn [senc vnorm].
       unfold fdv_with. destruct (df_ty f) as [kd| |].
       + apply Hnull, Hal.
-      + cbn [bind is_none]. destruct Hal as [->| ->]; rewrite ?andb_false_r; reflexivity.
-      + cbn [bind is_none]. destruct Hal as [->| ->]; rewrite ?andb_false_r; reflexivity.
+      + change null_member_is_none with true. cbn [bind is_none].
+        destruct Hal as [->| ->]; rewrite ?andb_false_r; reflexivity.
+      + change null_member_is_none with true. cbn [bind is_none].
+        destruct Hal as [->| ->]; rewrite ?andb_false_r; reflexivity.
     - rewrite (member_conf_some c U poly _ _ Hx) in Hm. apply andb_true_iff in Hm as [Ho Hc].
       destruct (dmulti f) eqn:Hmul.
       + unfold occurs_ok in Ho. rewrite Hmul in Ho. destruct x as [| | |xs|]; try discriminate.
@@ -322,8 +324,8 @@ Section Dec.
       apply andb_true_iff in Hw as [Hw Hcn]. apply andb_true_iff in Hw as [Hnd Hfo].
       assert (Hn1 : (1 <= n)%nat) by (cbn [vdepth] in Hd; lia).
       destruct fuel as [|k]; [lia|].
-      rewrite fdv_nonnull; [|intros k0; discriminate|apply (conf_nonnull c U poly st Hwf _ _ _ Hc0)].
-      rewrite d2o_ref by (apply (conf_nonnull c U poly st Hwf _ _ _ Hc0)).
+      rewrite fdv_nonnull; [|intros k0; discriminate|eapply conf_nonnull; [exact Hwf|exact Hc0]].
+      rewrite d2o_ref by (eapply conf_nonnull; [exact Hwf|exact Hc0]).
       rewrite senc_obj, Hdf, Hn. rewrite (unwrap_spec c0 d _ cname ffs Hdf Hn Hcn Hcls).
       cbn [bind]. rewrite Hdf.
       pose proof (mconf_length _ _ _ _ _ Hm) as Hlen.
@@ -337,36 +339,36 @@ Section Dec.
       unfold sbody'. destruct (c_list c) eqn:Hl.
       + (* positional form *)
         cbn [iter_doc bind]. rewrite mlist_gitems.
-        pose proof (fold_gitems c U st (fdr k) ffs JStr (fun _ _ => true)
+        pose proof (fold_gitems (fdr k) ffs JStr (fun _ _ => true)
                                 (nodup_text_NoDup _ Hnd)) as HF.
         specialize (HF (fun f _ => ltac:(unfold norm_key; destruct (key_bytes c); reflexivity))).
         specialize (HF ffs fs [] [] [] eq_refl eq_refl eq_refl Hlen).
         cbn [app] in HF. rewrite HF.
         * cbn [bind fst snd]. rewrite freq_ok_cnts; try assumption.
-          -- rewrite andb_false_r, vnorm_obj. reflexivity.
+          -- rewrite andb_false_r, vnorm_obj. cbn [bind is_none]. rewrite andb_false_r. reflexivity.
           -- intros; discriminate.
           -- intros f Hmc Hmul. cbn [member_conf] in Hmc. unfold none_ok in Hmc.
              rewrite Hl, Hmul in Hmc. discriminate.
-        * intros f y Hin _. apply (member_dec n k); auto; [lia|].
-          intros ->. split; [|left; reflexivity].
+        * intros f y Hin _. apply (member_dec n k f y IH (Hdep f y Hin) Hf (Hmem f y Hin)).
+          intros ->. split; [|left; exact Hl].
           specialize (Hmem f DNone Hin). cbn [member_conf] in Hmem. unfold none_ok in Hmem.
           rewrite Hl in Hmem. apply andb_true_iff in Hmem as [Hmem _].
           apply negb_true_iff in Hmem. exact Hmem.
         * intros; discriminate.
       + (* map form *)
         cbn [bind]. rewrite mmap_gitems.
-        pose proof (fold_gitems c U st (fdr k) ffs (skey c st) keepd
+        pose proof (fold_gitems (fdr k) ffs (skey c st) keepd
                                 (nodup_text_NoDup _ Hnd)) as HF.
         specialize (HF (fun f Hf0 => Hkey _ (Hscal f Hf0))).
         specialize (HF ffs fs [] [] [] eq_refl eq_refl eq_refl Hlen).
         cbn [app] in HF. rewrite HF.
         * cbn [bind fst snd]. rewrite freq_ok_cnts; try assumption.
-          -- rewrite andb_false_r, vnorm_obj. reflexivity.
+          -- rewrite andb_false_r, vnorm_obj. cbn [bind is_none]. rewrite andb_false_r. reflexivity.
           -- intros f y Hk0. unfold keepd in Hk0. apply negb_false_iff in Hk0.
              apply andb_true_iff in Hk0 as [H1 H2]. apply is_none_true in H1. split; [exact H1|lia].
           -- intros f Hmc Hmul. cbn [member_conf] in Hmc. unfold none_ok in Hmc.
              rewrite Hl, Hmul in Hmc. unfold keepd. cbn [is_none]. rewrite Hmc. reflexivity.
-        * intros f y Hin Hkeep. apply (member_dec n k); auto; [lia|].
+        * intros f y Hin Hkeep. apply (member_dec n k f y IH (Hdep f y Hin) Hf (Hmem f y Hin)).
           intros ->. unfold keepd in Hkeep. cbn [is_none andb] in Hkeep.
           apply negb_true_iff in Hkeep.
           assert (Hmin : 0 < df_min f) by lia. split; [|right; exact Hmin].
@@ -399,7 +401,7 @@ Section Dec.
     intros Hm Hmul Hf Hn.
     pose proof (member_dec (S (vdepth x)) fuel f x (fun m _ => dec_all m)) as H.
     unfold mdec_ok in H. rewrite Hmul in H. apply H; [lia|lia|exact Hm|].
-    intros E. split; [exact Hmul|apply Hn, E].
+    intros E. split; [reflexivity|apply Hn, E].
   Qed.
 
   (** an object document is read back as the object *)
@@ -409,7 +411,7 @@ Section Dec.
   Proof.
     intros Hc Hf. pose proof (dec_all (vdepth (DObj d fs)) (DObj d fs) (DRef c0) true fuel
                                       (le_n _) Hf Hc) as H.
-    rewrite fdv_nonnull in H; [|intros k0; discriminate|apply (conf_nonnull c U poly st Hwf _ _ _ Hc)].
+    rewrite fdv_nonnull in H; [|intros k0; discriminate|eapply conf_nonnull; [exact Hwf|exact Hc]].
     destruct (rdr fuel (DRef c0) (senc' false (DRef c0) (DObj d fs))) as [r| |e]; cbn [bind] in H;
       try discriminate.
     cbn [negb] in H. rewrite andb_false_r in H. exact H.
